@@ -399,7 +399,7 @@ func TestVerifC08Filter(t *testing.T) {
 		// ---- pods already on the node. Slot 0 is the optional "filler": a prod pod assigned long ago,
 		// past every deadline, whose reported usage is therefore fully reflected by the report.
 		var filler *c08Pod
-		tsCands := []time.Duration{-interval - time.Second, -interval, -interval, -interval + time.Second, -interval - time.Hour, -time.Second, 5 * time.Second, -interval + time.Nanosecond}
+		tsCands := []time.Duration{-interval - time.Second, -interval, -interval, -interval + time.Second, -interval - time.Hour, -time.Second, 5 * time.Second, -interval + time.Nanosecond, -interval + 300*time.Millisecond, -interval + 999*time.Millisecond, -interval - 300*time.Millisecond}
 		for _, s := range []*int64{args.EstimatedSecondsAfterPodScheduled} {
 			if s != nil && *s > 0 {
 				d := time.Duration(*s) * time.Second
